@@ -121,6 +121,9 @@ def judge_stream(data: bytes, cfg):
 
 
 def replay_case(case):
+    if case["kind"] == "run":
+        data = streams.TOKENS[case["tok"]][2] * case["n"] + streams.TOKENS["Uack"][2]
+        return [(k + "|long_run_of_discarded_messages", d) for k, d in judge_stream(data, case["cfg"])[1]]
     if case["kind"] == "socket":
         acc = engine.Acc()
         data = bytes.fromhex(case["data"])
@@ -247,6 +250,16 @@ def _eval_block(block, acc):
                 acc.outcomes[("stream", cfg.get("quitonerror", 0), type(r.raised).__name__ if r.raised else "end")] += 1
                 for key, detail in out:
                     acc.violation(key, {"kind": "stream", "data": data.hex(), "cfg": cfg}, detail)
+    elif kind == "R":  # long runs of consecutive discarded messages (no delivered item in between)
+        tok, n = block[1], block[2]
+        data = streams.TOKENS[tok][2] * n + streams.TOKENS["Uack"][2]
+        for cfg in (dict(quitonerror=0), dict(quitonerror=1, handler=True), dict(quitonerror=0, protfilter={1: 6, 2: 5, 4: 3}[streams.TOKENS[tok][0]]), dict(quitonerror=2, protfilter={1: 6, 2: 5, 4: 3}[streams.TOKENS[tok][0]])):
+            r, out = judge_stream(data, cfg)
+            acc.evaluations += 1
+            acc.transitions += len(r.items) + 1
+            acc.outcomes[("run", tok, cfg.get("quitonerror"), type(r.raised).__name__ if r.raised else "end")] += 1
+            for key, detail in out:
+                acc.violation(key + "|long_run_of_discarded_messages", {"kind": "run", "tok": tok, "n": n, "cfg": cfg}, detail)
     elif kind == "K":  # socket streams cut at every byte (peer closes / times out mid-frame)
         first = block[1]
         for seq in [(first,)] + [(first, t) for t in ("Uack", "N1", "R1", "Ubad")]:
@@ -327,6 +340,7 @@ def run_tier(tier, t0):
     alphabet = streams.FRAME_TOKENS + streams.NOISE_TOKENS + streams.FRAG_TOKENS
     blocks += [("T", f, k) for f in alphabet]
     blocks += [("D", cid.hex(), q) for cid in FS.known_clsids()]
+    blocks += [("R", t, n) for t in ("Nbad", "N1", "Ubad", "Uack", "Rbad", "R1") for n in (1100, 3000)]
     blocks += [("K", f) for f in ("Uack", "Uinf", "N1", "R1", "Ubad", "Rz", "fb562", "fd300")]
     acc = engine.sweep(blocks, eval_block)
     engine.finish(
@@ -340,6 +354,7 @@ def run_tier(tier, t0):
         ),
         assumptions=[
             f"a single call running longer than {WATCHDOG_S}s is a hang (slowest legitimate case measured: ~4 s)",
+            "runs of 1,100 and 3,000 consecutive discarded messages (rejected, or filtered out by protfilter) followed by one good frame",
             "stream livelock = more than 4*len+16 stream calls (deterministic horizon); socket streams (fixed chunks, every cut, close/timeout): more than 64 recv calls after the end",
         ],
         vacuity=[
